@@ -36,6 +36,13 @@ func c18Progs(native bool) []*actlang.Prog {
 	}
 	if native {
 		ps = append(ps, prog(true, Op{K: actlang.NativeNilExec}), prog(true, Op{K: actlang.NativeErrPartial}))
+		// a Go action that edits the very map it was given (the bs.Extend idiom) and hands back another one
+		ps = append(ps,
+			prog(true, Op{K: actlang.InPlace}, Op{K: actlang.Del, A: "k!"}, Op{K: actlang.Del, A: "cfg!"}, Op{K: actlang.RetFresh, V: M{"z": 1.0}}),
+			prog(true, Op{K: actlang.InPlace}, Op{K: actlang.Set, A: "k!", V: "other"}, Op{K: actlang.RetEmpty}),
+			prog(true, Op{K: actlang.InPlace}, Op{K: actlang.Del, A: "k!"}, Op{K: actlang.Clear}, Op{K: actlang.Set, A: "z", V: 1.0}),
+			prog(true, Op{K: actlang.InPlace}, Op{K: actlang.Del, A: "k!"}, Op{K: actlang.Set, A: "cfg!", V: 0.0}, Op{K: actlang.RetNull}),
+			prog(true, Op{K: actlang.InPlace}, Op{K: actlang.Del, A: "k!"}, Op{K: actlang.Throw}))
 	} else {
 		ps = append(ps, prog(false, Op{K: actlang.MutateDeep, A: "cfg!.a"}),
 			prog(false, Op{K: actlang.MutateDeep, A: "cfg!.a.1.b"}),
@@ -93,7 +100,11 @@ func C18(c *vh.Ctx) {
 				return
 			}
 		}
-		// the whole step must also be one the reference allows
+		// the whole step must also be one the reference allows (an action that edits its input in place edits
+		// what the engine reports as lastBindings too: action behaviour, outside the reference)
+		if c18EditsInPlace(cs.Spec) {
+			return
+		}
 		refs := cs.Spec.Step(cs.Node, cs.Bs, cs.Pending)
 		if obs := rstep.Observe(stride, err); !allowed(obs, refs) {
 			c.Violation("C18/differs-from-reference/"+c18sit(cs), fmt.Sprintf("Step gave %s; reference allows %v", obs.Key(), keys(refs)), cs)
@@ -108,7 +119,7 @@ func C18(c *vh.Ctx) {
 		}
 		return
 	}
-	c.Rule("states with 0-2 permanent ('k!', 'cfg!') and 0-2 ordinary bindings x action and guard programs (delete / overwrite / clear / fresh object / same object / empty / null / throw / non-object / native nil execution / partial execution / deep mutation; native and ECMAScript) x branch pattern (none; binding an ordinary variable; binding a permanent variable '?dev!') x node shape (action node with guarded branch; message node with guarded branch) x error routing; oracle: every permanent binding present before is present and equal in any resulting state, no crash, and the step is one the reference allows. non-trivial = state has a permanent binding.")
+	c.Rule("states with 0-2 permanent ('k!', 'cfg!') and 0-2 ordinary bindings x action and guard programs (delete / overwrite / clear / fresh object / same object / empty / null / throw / non-object / native nil execution / partial execution / deep mutation; native and ECMAScript) x branch pattern (none; binding an ordinary variable; binding a permanent variable '?dev!') x node shape (action node with guarded branch and a fallback; message node with guarded branch; action node whose only branch is guarded, so that it may follow no branch; action node without branches) - Go actions also editing the map they were given and handing back another x error routing; oracle: every permanent binding present before is present and equal in any resulting state, no crash, and the step is one the reference allows. non-trivial = state has a permanent binding.")
 	var idx uint64
 	for _, native := range []bool{true, false} {
 		ps := c18Progs(native)
@@ -122,10 +133,22 @@ func C18(c *vh.Ctx) {
 					return
 				}
 				for _, pat := range []interface{}{nil, M{"a": "?x"}, M{"a": "?dev!"}} {
-					for shape := 0; shape < 2; shape++ {
+					for shape := 0; shape < 4; shape++ {
 						var node *rstep.ANode
 						if shape == 0 {
 							node = &rstep.ANode{Action: act, Type: "bindings", Branches: []rstep.ABranch{{Pattern: pat, Guard: g, Target: "n1"}, {Target: "n2"}}}
+						} else if shape == 2 {
+							// no fallback: when the pattern does not match or the guard says no, the action node has
+							// followed no branch and the machine goes to the error state
+							if act == nil {
+								continue
+							}
+							node = &rstep.ANode{Action: act, Type: "bindings", Branches: []rstep.ABranch{{Pattern: pat, Guard: g, Target: "n1"}}}
+						} else if shape == 3 {
+							if act == nil || g != nil || pat != nil {
+								continue
+							}
+							node = &rstep.ANode{Action: act, NoBranches: true}
 						} else {
 							if act != nil {
 								continue
@@ -157,6 +180,21 @@ func C18(c *vh.Ctx) {
 			}
 		}
 	}
+}
+
+func c18EditsInPlace(as *rstep.ASpec) bool {
+	in := func(p *actlang.Prog) bool { return p != nil && len(p.Ops) > 0 && p.Ops[0].K == actlang.InPlace }
+	for _, n := range as.Nodes {
+		if in(n.Action) {
+			return true
+		}
+		for _, b := range n.Branches {
+			if in(b.Guard) {
+				return true
+			}
+		}
+	}
+	return false
 }
 
 func c18sit(cs stepCase) string {
